@@ -16,9 +16,9 @@ var (
 		`(?m)^(?:[\t\s]*(?:\r?\n|\r))+`, ``,
 	})
 	regHex = map[string]*regexp.Regexp{
-		"name":    regexp.MustCompile(`name=[0-9A-F]+`),
-		"comm":    regexp.MustCompile(`comm=[0-9A-F]+`),
-		"profile": regexp.MustCompile(`profile=[0-9A-F]+`),
+		"name":    regexp.MustCompile(`\bname=[0-9A-F]+\b`),
+		"comm":    regexp.MustCompile(`\bcomm=[0-9A-F]+\b`),
+		"profile": regexp.MustCompile(`\bprofile=[0-9A-F]+\b`),
 	}
 )
 
